@@ -3,16 +3,34 @@
 //! a crash (the precondition of memory safety was violated) is an observation, not the
 //! end of the driver.  Returns "ok", "panic: ..", or "signal N".
 use arrow_array::*;
+use arrow_data::ArrayData;
 use arrow_cast::display::{ArrayFormatter, FormatOptions};
 use vcore::guarded;
 
+thread_local! {
+    static STAGE: std::cell::Cell<&'static str> = const { std::cell::Cell::new("make_array") };
+}
+fn stage(s: &'static str) {
+    STAGE.with(|x| x.set(s));
+}
+
+/// reading the *output* of a kernel: a panic there is the kernel's business (C03 / C01), not
+/// an observation about the accepted candidate
+fn read(a: &dyn Array) {
+    let _ = guarded(|| vcore::tok::rows(a));
+}
+
 fn walk(a: ArrayRef) {
+    stage("counts");
     let n = a.len();
     let small = n <= 4096;
     let _ = a.null_count();
-    let _ = a.logical_null_count();
-    let _ = a.logical_nulls();
-    let _ = a.is_nullable();
+    if small {
+        // (these allocate O(len) memory: not for the legal 2^40-row Null / zero-width arrays)
+        let _ = a.logical_null_count();
+        let _ = a.logical_nulls();
+        let _ = a.is_nullable();
+    }
     let _ = a.get_array_memory_size();
     let _ = a.get_buffer_memory_size();
     let d = a.to_data();
@@ -23,7 +41,9 @@ fn walk(a: ArrayRef) {
         let _ = a.is_valid(i);
     }
     if small {
+        stage("accessors");
         let _ = vcore::tok::rows(a.as_ref());
+        stage("format");
         if let Ok(f) = ArrayFormatter::try_new(a.as_ref(), &FormatOptions::default()) {
             for i in 0..n {
                 let _ = f.value(i).try_to_string();
@@ -34,6 +54,7 @@ fn walk(a: ArrayRef) {
         let _ = a.to_data() == d;
     }
     // slices
+    stage("slice");
     let cuts: Vec<(usize, usize)> = if n == 0 { vec![(0, 0)] } else { vec![(0, n.min(3)), (n - 1, 1), (n / 2, n - n / 2), (n, 0)] };
     for (o, l) in cuts {
         let s = a.slice(o, l);
@@ -43,48 +64,86 @@ fn walk(a: ArrayRef) {
         }
     }
     if small {
+        stage("take");
         let idx = UInt32Array::from((0..n as u32).rev().collect::<Vec<_>>());
         if let Ok(t) = arrow_select::take::take(a.as_ref(), &idx, None) {
-            let _ = vcore::tok::rows(t.as_ref());
+            read(t.as_ref());
         }
+        stage("filter");
         let mask = BooleanArray::from((0..n).map(|i| i % 2 == 0).collect::<Vec<_>>());
         if let Ok(t) = arrow_select::filter::filter(a.as_ref(), &mask) {
-            let _ = vcore::tok::rows(t.as_ref());
+            read(t.as_ref());
         }
+        stage("concat");
         if let Ok(t) = arrow_select::concat::concat(&[a.as_ref(), a.as_ref()]) {
-            let _ = vcore::tok::rows(t.as_ref());
+            read(t.as_ref());
         }
+        stage("cast");
         if let Ok(t) = arrow_cast::cast(a.as_ref(), &arrow_schema::DataType::Utf8) {
-            let _ = vcore::tok::rows(t.as_ref());
+            read(t.as_ref());
         }
     }
 }
 
-/// run `make` and walk the array it yields, isolated in a child process
-pub fn exercise(make: impl FnOnce() -> ArrayRef) -> String {
+/// Walk every item in a forked child (one child per batch; fork is expensive in some
+/// sandboxes).  The child streams one record per item; when it dies (signal) the item it
+/// was working on is reported as "signal N" and a fresh child continues with the rest.
+pub fn exercise_batch(items: Vec<ArrayData>) -> Vec<String> {
+    let mut out = vec![String::new(); items.len()];
+    let mut start = 0usize;
+    while start < items.len() {
+        let (done, sig) = unsafe { run_child(&items, start, &mut out) };
+        start += done;
+        if start < items.len() {
+            match sig {
+                Some(s) => {
+                    out[start] = format!("signal {s}");
+                    start += 1;
+                }
+                None => {
+                    // no child could be started (or it stopped early without a signal): do the rest inline
+                    for k in start..items.len() {
+                        let d = items[k].clone();
+                        out[k] = inline(move || make_array(d));
+                    }
+                    start = items.len();
+                }
+            }
+        }
+    }
+    out
+}
+
+/// returns (number of items reported, terminating signal of the child if any)
+unsafe fn run_child(items: &[ArrayData], start: usize, out: &mut [String]) -> (usize, Option<i32>) {
     unsafe {
         let mut fds = [0i32; 2];
         if libc::pipe(fds.as_mut_ptr()) != 0 {
-            return inline(make);
+            return (0, None);
         }
         let pid = libc::fork();
         if pid < 0 {
             libc::close(fds[0]);
             libc::close(fds[1]);
-            return inline(make);
+            return (0, None);
         }
         if pid == 0 {
             libc::close(fds[0]);
-            libc::alarm(20);
-            let msg = inline(make);
-            let b = msg.as_bytes();
-            let n = b.len().min(160);
-            let _ = libc::write(fds[1], b.as_ptr() as *const libc::c_void, n);
+            for d in &items[start..] {
+                libc::alarm(30);
+                let d = d.clone();
+                let msg = inline(move || make_array(d));
+                let b = msg.as_bytes();
+                let n = b.len().min(200) as u16;
+                let hdr = n.to_le_bytes();
+                let _ = libc::write(fds[1], hdr.as_ptr() as *const libc::c_void, 2);
+                let _ = libc::write(fds[1], b.as_ptr() as *const libc::c_void, n as usize);
+            }
             libc::_exit(0);
         }
         libc::close(fds[1]);
-        let mut buf = [0u8; 256];
-        let mut got = vec![];
+        let mut got: Vec<u8> = vec![];
+        let mut buf = [0u8; 65536];
         loop {
             let n = libc::read(fds[0], buf.as_mut_ptr() as *mut libc::c_void, buf.len());
             if n <= 0 {
@@ -95,19 +154,28 @@ pub fn exercise(make: impl FnOnce() -> ArrayRef) -> String {
         libc::close(fds[0]);
         let mut status = 0i32;
         libc::waitpid(pid, &mut status, 0);
-        if libc::WIFSIGNALED(status) {
-            return format!("signal {}", libc::WTERMSIG(status));
+        let mut done = 0usize;
+        let mut p = 0usize;
+        while p + 2 <= got.len() {
+            let n = u16::from_le_bytes([got[p], got[p + 1]]) as usize;
+            if p + 2 + n > got.len() {
+                break;
+            }
+            out[start + done] = String::from_utf8_lossy(&got[p + 2..p + 2 + n]).to_string();
+            done += 1;
+            p += 2 + n;
         }
-        let s = String::from_utf8_lossy(&got).to_string();
-        if s.is_empty() { "child exited without a report".into() } else { s }
+        let sig = if libc::WIFSIGNALED(status) { Some(libc::WTERMSIG(status)) } else { None };
+        (done, sig)
     }
 }
 
 fn inline(make: impl FnOnce() -> ArrayRef) -> String {
+    stage("make_array");
     match guarded(move || walk(make())) {
         Ok(()) => "ok".into(),
         Err(p) => {
-            let mut m = format!("panic: {p}");
+            let mut m = format!("panic: [{}] {p}", STAGE.with(|x| x.get()));
             m.truncate(150);
             m.replace('\n', " ")
         }
